@@ -279,6 +279,9 @@ def case_read_sync(ctx, xa, floor=True):
         out = ctx.call("read_sync_no_floor", lambda: sr.read_sync(slice(0, ns), threshold=float(thr), floor_percentile=False))
     if not ctx.oblige("sync_shape_one_row_per_sample", tuple(out.shape) == (ns, 16 + xa), detail={"shape": str(out.shape)}):
         return
+    if floor:
+        block = ctx.call("getitem_nidq", lambda: sr[0:2, :])
+        ctx.oblige("nidq_reads_are_single_precision_too", getattr(block, "tag", None) == np.dtype(np.float32), detail={"dtype": str(getattr(block, "tag", None))})
     k = Fraction(5.0 / 32768)
     for s in range(ns):
         for b in range(16):
@@ -385,6 +388,15 @@ def cmp(name, got, exp):
     got = np.asarray(got); exp = np.asarray(exp)
     if got.shape != exp.shape or not np.allclose(got, exp, rtol=2e-6, atol=0): bad.append((name, got.shape, exp.shape))
 vals = [None] + list(range(-5, 6)); steps = [None, 1, 2, 3, -1, -2, -3]
+_real_sr = sr
+class _Guard:
+    # indexing that records an exception as a finding instead of stopping the script
+    def __getattr__(self, k): return getattr(_real_sr, k)
+    def __getitem__(self, k):
+        try: return _real_sr[k]
+        except Exception as e:
+            bad.append((f'sr[{{k!r}}] raised', repr(e))); return np.zeros(0)
+sr = _Guard()
 for a, b, c in itertools.product(vals, vals, steps):
     sl = slice(a, b, c)
     cmp(f'n{{sl}}', sr[sl], CAL[sl]); cmp(f'c{{sl}}', sr[:, sl], CAL[:, sl]); cmp(f'1c{{sl}}', sr[1, sl], CAL[1, sl])
@@ -443,6 +455,9 @@ raw = np.c_[an, dg].astype(np.int16)
 d = pathlib.Path(tempfile.mkdtemp())
 (d / 'x.nidq.meta').write_text(sglx.nidq_meta_text(0, 0, xa, 1, ns=format(ns / 30003.0003, '.20f'))); raw.tofile(d / 'x.nidq.bin')
 sr = spikeglx.Reader(d / 'x.nidq.bin')
+blk = sr[0:2, :]
+exp32 = raw[0:2].astype(np.float32) * sr.sample2volts.astype(np.float32)
+if blk.dtype != np.float32 or not np.array_equal(blk, exp32): reproduced(f'a read of a nidq file has dtype {{blk.dtype}} (float32(raw) x factor expected), largest difference {{float(np.max(np.abs(blk - exp32)))}}')
 for first in (0, 1):
     out = sr.read_sync(slice(first, ns), threshold=1.2)
     v = an[first:].astype(np.float32) * np.float32(5.0 / 32768)
